@@ -40,8 +40,10 @@ def make_case(seed, shard_index, i, kind, opts=None):
         pt, l_h = gpv.gen_hostile(rng, t, inp, hmode)
         case["pretext"] = pt
         labels = l_in | l_h
-    elif kind in ("tag", "vanish"):
-        pt, design = gtag.gen_single(rng, t, inp, vanishing=(kind == "vanish"))
+    elif kind in ("tag", "vanish", "tagdrop"):
+        # tagdrop: a designed map from which one piece is missing (no longer a PretextView-model map: an error is
+        # an allowed outcome and only the routing of what is left, and of the absent sequence, is judged - by C09)
+        pt, design = gtag.gen_single(rng, t, inp, vanishing=(kind == "vanish"), drop_piece=(kind == "tagdrop"))
         case["pretext"] = pt
         case["pieces"] = design["pieces"]
         case["design"] = {k: v for k, v in design.items() if k != "pieces"}
@@ -88,6 +90,9 @@ def make_case(seed, shard_index, i, kind, opts=None):
     if case["via_text"]:
         case["via_text"] = rng.choice(["agp", "tpf"])
         labels.add(f"in:via-{case['via_text']}-text")
+        if case["via_text"] == "agp" and rng.random() < 0.5:
+            case["agp_variant"] = rng.choice(["v1.1-gaps", "component-types"])
+            labels.add(f"in:agp-{case['agp_variant']}")
     # (through AGP text two adjacent blocks of one name would simply be read as one scaffold)
     if opts.get("no_join_gap") and rng.random() < opts["no_join_gap"]:
         case["no_join_gap"] = True
@@ -118,7 +123,21 @@ def build_inputs(case):
         else:
             from vf.ref import agp_ref
 
-            ia = IndexedAssembly.new_from_assembly(parse_agp(io.StringIO(agp_ref.format({"header": [], "scaffolds": case["input"]})), "in"))
+            text = agp_ref.format({"header": [], "scaffolds": case["input"]})
+            if case.get("agp_variant"):
+                # other legal spellings of the same assembly: AGP 1.1 gap lines (8 columns) and
+                # component types other than W (A, D, F, G, O, P are all sequence rows)
+                lines = []
+                for k, ln in enumerate(text.split("\n")):
+                    f = ln.split("\t")
+                    if len(f) >= 9 and not ln.startswith("#"):
+                        if f[4] in ("N", "U") and case["agp_variant"] == "v1.1-gaps":
+                            f = f[:8]
+                        elif f[4] == "W" and case["agp_variant"] == "component-types":
+                            f[4] = "WADFGOP"[(k + len(f[5])) % 7]
+                    lines.append("\t".join(f))
+                text = "\n".join(lines)
+            ia = IndexedAssembly.new_from_assembly(parse_agp(io.StringIO(text), "in"))
     else:
         pa = Assembly("p", scaffolds=build_scaffolds(case["pretext"]), bp_per_texel=t)
         ia = IndexedAssembly("in", scaffolds=build_scaffolds(case["input"]))
